@@ -106,7 +106,11 @@ fn dump_page_node(b: &InnerBucket, id: PageNodeID, out: &mut String) {
             }
             let l = pn.val(i).unwrap();
             out.push_str(&hex(l.key()));
-            out.push(if l.is_kv() { 'k' } else { 'b' });
+            if l.is_kv() {
+                out.push_str(&format!(":k{}", l.value().len()));
+            } else {
+                out.push_str(":b");
+            }
         }
         out.push(')');
     } else {
@@ -141,6 +145,30 @@ pub fn tree_dump(bucket: &Bucket) -> String {
     let b = bucket.inner.borrow();
     let mut out = String::new();
     dump_page_node(&b, PageNodeID::Page(b.meta.root_page), &mut out);
+    out
+}
+
+fn walk_buckets(b: &InnerBucket, path: String, out: &mut Vec<(String, bool, String)>) {
+    let mut d = String::new();
+    dump_page_node(b, PageNodeID::Page(b.meta.root_page), &mut d);
+    out.push((path.clone(), b.verif_dirty(), d));
+    for (name, child) in b.verif_children() {
+        let c = child.borrow();
+        if c.deleted {
+            continue;
+        }
+        let p = if path.is_empty() { hex(&name) } else { format!("{}/{}", path, hex(&name)) };
+        walk_buckets(&c, p, out);
+    }
+}
+
+/// Every bucket this transaction has opened or created (the root bucket first, path = hex names joined
+/// by '/'), whether it is marked dirty, and its tree as the transaction sees it.
+pub fn tx_trees(tx: &Tx) -> Vec<(String, bool, String)> {
+    let inner = tx.inner.borrow();
+    let root = inner.root.borrow();
+    let mut out = Vec::new();
+    walk_buckets(&root, String::new(), &mut out);
     out
 }
 
